@@ -230,6 +230,16 @@ func genC14(rng *rand.Rand) c14prog {
 			case "k":
 				parts = []string{[]string{"true", "FALSE", "Null"}[rng.Intn(3)]}
 			}
+		} else if form == "p" && rng.Intn(6) == 0 {
+			// a qualified name whose FIRST segment spells a reserved word: for PHP an ordinary namespace segment
+			var first string
+			switch kind {
+			case "k":
+				first = []string{"true", "False", "NULL", "self"}[rng.Intn(4)]
+			default:
+				first = []string{"self", "Parent", "int", "String", "void", "Iterable", "Object", "float", "bool", "null"}[rng.Intn(10)]
+			}
+			parts = append([]string{first}, name(2)...)
 		}
 		p.refs = append(p.refs, c14ref{form: form, kind: kind, parts: parts})
 		return nameText(form, parts)
